@@ -711,7 +711,7 @@ func genC01(c *Ctx) {
 
 	// ---- 5. bounded-exhaustive: all texts over the alphabet up to length N
 	alpha := `{}[],:"\u01-.eEa `
-	depth := c.Scale(5, 6)
+	depth := c.Scale(6, 7)
 	c.Run("C01.enum", Args(alpha, "1", ""), "C01.enum", "", "exhaustive/len<=1")
 	syms := []byte(alpha)
 	sort.Slice(syms, func(i, j int) bool { return syms[i] < syms[j] })
